@@ -345,3 +345,105 @@ pub fn ixfr_decision(rt: &tokio::runtime::Runtime, client: u32, zone_serial: u32
         "transfer".into()
     }
 }
+
+//------------ text entry points of signature times ---------------------------
+
+use domain::base::scan::IterScanner;
+use domain::base::zonefile_fmt::{DisplayKind, ZonefileFmt};
+use domain::zonefile::inplace::{Entry, Zonefile};
+
+/// `YYYYMMDDHHmmSS` (UTC) of the time `t` seconds after the epoch: proleptic
+/// Gregorian calendar by the days-to-civil algorithm, no library involved.
+pub fn civil(t: u64) -> String {
+    let days = (t / 86400) as i64;
+    let rem = t % 86400;
+    let z = days + 719468;
+    let era = z.div_euclid(146097);
+    let doe = z.rem_euclid(146097);
+    let yoe = (doe - doe / 1460 + doe / 36524 - doe / 146096) / 365;
+    let doy = doe - (365 * yoe + yoe / 4 - yoe / 100);
+    let mp = (5 * doy + 2) / 153;
+    let d = doy - (153 * mp + 2) / 5 + 1;
+    let m = if mp < 10 { mp + 3 } else { mp - 9 };
+    let y = yoe + era * 400 + if m <= 2 { 1 } else { 0 };
+    format!("{:04}{:02}{:02}{:02}{:02}{:02}", y, m, d, rem / 3600, rem % 3600 / 60, rem % 60)
+}
+
+fn scan_token(tok: &str) -> Result<u32, String> {
+    let mut sc = IterScanner::<_, Vec<u8>>::new([tok]);
+    Timestamp::scan(&mut sc).map(|t| t.into_int()).map_err(|e| format!("{e}"))
+}
+
+fn fromstr_token(tok: &str) -> Result<u32, String> {
+    Timestamp::from_str(tok).map(|t| t.into_int()).map_err(|e| format!("{e}"))
+}
+
+/// expiration and inception of the one RRSIG record in a zone-file text
+fn zonefile_times(text: &str) -> Result<(u32, u32), String> {
+    let mut zone = Zonefile::from(text);
+    match zone.next_entry() {
+        Ok(Some(Entry::Record(r))) => match r.data() {
+            ZoneRecordData::Rrsig(sig) => {
+                Ok((sig.expiration().into_int(), sig.inception().into_int()))
+            }
+            _ => Err("not an RRSIG".into()),
+        },
+        Ok(_) => Err("no record".into()),
+        Err(e) => Err(format!("{e}")),
+    }
+}
+
+fn rrsig_line(exp: &str, inc: &str) -> String {
+    format!("example. 3600 IN RRSIG A 15 2 3600 {exp} {inc} 4711 example. AAAAAAAAAAA=\n")
+}
+
+/// Two signature times (seconds since the epoch, any era) through every text
+/// entry point, in date form and in integer form (the integer form can only
+/// express the 32-bit field value).  Ok((v1, v2)) when all entry points
+/// accept and agree, Err(description) otherwise.
+pub fn text_entry_points(t1: u64, t2: u64) -> Result<(u32, u32), String> {
+    let forms = [
+        ("date", civil(t1), civil(t2)),
+        ("int", format!("{}", t1 as u32), format!("{}", t2 as u32)),
+    ];
+    let mut seen: Vec<(String, (u32, u32))> = vec![];
+    for (form, a, b) in forms.iter() {
+        seen.push((format!("fromstr/{form}"), (fromstr_token(a)?, fromstr_token(b)?)));
+        seen.push((format!("scan/{form}"), (scan_token(a)?, scan_token(b)?)));
+        seen.push((format!("zonefile/{form}"), zonefile_times(&rrsig_line(a, b))?));
+    }
+    let first = seen[0].1;
+    for (name, v) in &seen {
+        if *v != first {
+            return Err(format!("entry points disagree: {} {:?} vs {} {:?} (tokens {:?})",
+                               seen[0].0, first, name, v, forms));
+        }
+    }
+    Ok(first)
+}
+
+/// Writing: Display and the zone-file formatter write the integer form of the
+/// field, and reading the written record back yields the same fields.
+pub fn text_written_ok(v1: u32, v2: u32) -> Result<(), String> {
+    let (d1, d2) = (format!("{}", Timestamp::from(v1)), format!("{}", Timestamp::from(v2)));
+    if d1 != format!("{v1}") || d2 != format!("{v2}") {
+        return Err(format!("Display wrote {d1:?} {d2:?} for {v1} {v2}"));
+    }
+    let mut zone = Zonefile::from(rrsig_line(&d1, &d2).as_str());
+    let rec = match zone.next_entry() {
+        Ok(Some(Entry::Record(r))) => r,
+        other => return Err(format!("cannot read the record back: {:?}", other.is_ok())),
+    };
+    for kind in [DisplayKind::Simple, DisplayKind::Tabbed, DisplayKind::Multiline] {
+        let mut text = format!("{}", rec.display_zonefile(kind));
+        text.push('\n');
+        if !text.split_whitespace().any(|t| t == d1) || !text.split_whitespace().any(|t| t == d2) {
+            return Err(format!("zone-file text lacks the integer tokens: {text:?}"));
+        }
+        match zonefile_times(&text) {
+            Ok(v) if v == (v1, v2) => {}
+            other => return Err(format!("written text {text:?} reads back as {other:?}")),
+        }
+    }
+    Ok(())
+}
